@@ -93,6 +93,14 @@ CHECKS = {
               "all op sequences to depth 2/3 + samples on two objects and random histories on three objects (vsbx, noop) with lookups for every region after each history. "
               "Two defects found and repaired (891f43c stale symbol cache, d07e384 shared lookup cache)."),
         note=NOTE + "A failed create leaves the object INITIALIZING for ever (allowed by the statement)."),
+    "C16": dict(
+        engine="ops", design_ref="DESIGN.md §6 C16",
+        technique="Lean 4 theorems parametric in the plain semantics (the wiring unwrap/apply/wrap/write-back is proved for EVERY PlainSem) + source operator tables as proof obligations + differential execution vs the plain C++ expression",
+        text=("Proof: C16_value, C16_compare (value = plain comparison; hint iff sandbox memory is involved; never a plain bool), C16_unary, C16_update_tainted, C16_update_tvol (stored value = plain result or "
+              "abort, never a different value), C16_incdec_return, for every plain semantics and every wrapper combination; ops_tables_match ties the operator macro instantiation lists and the bodies of "
+              "Pre/PostIncDecOps/CompoundAssignmentOp to rlbox.hpp on every run. Tied to the code by 16 operators x 8 wrapper combinations x 121 type pairs, all 8-bit x 8-bit operand pairs by block hash "
+              "(8.4M evaluations in quick), compound assignment and ++/--, with result types asserted at compile time and values compared with the plain expression and with an independent Python rendering."),
+        note=NOTE + "The executable C++ integer rules (cppSem, LP64) are used only by the correspondence check; floating point is not exercised."),
 }
 
 TODO_REASON = "check not built yet in this round (design in DESIGN.md §6); will be claimed when its theorems and correspondence check exist"
